@@ -72,7 +72,16 @@ def make_outcome(frame, oc):
     if oc is None:
         return None
     kind, v = oc
-    return frame.BackwardFrame(v) if kind == "ok" else frame.BackwardFrameError(v)
+    if kind in ("ok", "err"):
+        return frame.BackwardFrame(v) if kind == "ok" else frame.BackwardFrameError(v)
+    # frames of classes a driver, simulator or bus monitor derived from the library's (a timestamp, an edge count,
+    # a truth value of their own): still a clean answer / a garbled answer
+    base = frame.BackwardFrame if kind.startswith("ok") else frame.BackwardFrameError
+    if kind.endswith("-sub"):
+        cls = type("Stamped" + base.__name__, (base,), {"timestamp": 12.5})
+    else:
+        cls = type("Falsy" + base.__name__, (base,), {"__bool__": lambda self: False})
+    return cls(v)
 
 
 def run_case(case):
@@ -97,6 +106,8 @@ def run_case(case):
     kind = kind_of(r_cls)
     name = r_cls.__name__
     where = "%s(%s)" % (name, "None" if oc is None else "%s %d" % tuple(oc))
+    if oc is not None and oc[0] not in ("ok", "err"):
+        where += " [frame of an application subclass]"
     out = []
     faults = (exc.MissingResponse, exc.ResponseError)
     try:
@@ -105,7 +116,7 @@ def run_case(case):
         return [("C06:constructor-raised:%s" % name, "%s: %r" % (where, e))]
     if r.raw_value is not fr:
         out.append(("C06:raw-value", "%s: raw_value is %r" % (where, r.raw_value)))
-    clean = oc is not None and oc[0] == "ok"
+    clean = oc is not None and oc[0].startswith("ok")
     v = None if oc is None else oc[1]
 
     # ---- .value
@@ -201,7 +212,7 @@ def run_case(case):
             er = r.error
             # classes that redefine .error (QueryStatusResponse: "gear in an error state") are only
             # required not to raise; the inherited flag means "received with a framing error"
-            if "error" not in r_cls.__dict__ and bool(er) is not (oc is not None and oc[0] == "err"):
+            if "error" not in r_cls.__dict__ and bool(er) is not (oc is not None and oc[0].startswith("err")):
                 out.append(("C06:bitmap-error-flag", "%s: .error is %r" % (where, er)))
         except Exception as e:  # noqa
             out.append(("C06:bitmap-error-flag", "%s: .error raised %r" % (where, e)))
@@ -551,7 +562,12 @@ def _shard(arg):
     name = arg
     res = Result()
     res.exhaustive = True
-    outcomes = [None] + [("ok", v) for v in range(256)] + [("err", v) for v in range(256)]
+    outcomes = [None] + [("ok", v) for v in range(256)] + [("err", v) for v in range(256)] + \
+        [(k, v) for k in ("ok-sub", "err-sub") for v in (0, 1, 5, 0x42, 0x80, 254, 255)]
+    if kind_of(response_classes()[name][0]) == "yesno":
+        # "true exactly when anything at all was received" - whatever the received object thinks of its own truth value
+        # (the other response kinds test the frame's truth value on the unchanged tree as well; not judged there)
+        outcomes += [(k, v) for k in ("ok-falsy", "err-falsy") for v in (0, 1, 255)]
     for oc in outcomes:
         case = {"cls": name, "outcome": list(oc) if oc else None}
         res.count()
